@@ -117,6 +117,7 @@ Definition cr_ok (w : world) (s : state) (uid : nat) (l : loc) (o : nat) : Prop 
     bslice (dev_get (s_dev s) reg) (l_off l) (l_size l) = content w o.
 
 Definition cu_ok (w : world) (s : state) (wr : writer) (o : nat) : Prop :=
+  (wr_uid wr < s_next_uid s)%nat /\
   wr_abs wr < abs_end s /\
   (forall cur reg, binfo s (wr_uid wr) = Some (cur, reg) -> wr_off wr + wr_size wr <= cur) /\
   (s_tbr s <= wr_abs wr ->
